@@ -387,6 +387,17 @@ func (m *ldbManager) Pop() error {
 		return err
 	}
 
+	// cached undo overlays were computed against the frontier that was just removed; if another branch
+	// grows over the same heights they would be extended from the wrong base
+	m.changes.Lock()
+	if m.l1Cache != nil {
+		m.l1Cache.Purge()
+	}
+	if m.l2Cache != nil {
+		m.l2Cache.Purge()
+	}
+	m.changes.Unlock()
+
 	return nil
 }
 func (m *ldbManager) Stop() error {
